@@ -13,6 +13,7 @@ pub fn run(args: &vcore::Args) {
         "advanced" => GenConfig::advanced(),
         "risky" => GenConfig::everything().risky(),
         "dense" => GenConfig::advanced().dense_refs(),
+        "densecg" => GenConfig::client_graph().dense_refs(),
         _ => GenConfig::everything(),
     };
     let tapes = vcore::generate_values(args.seed, n, &tape_strategy(400));
@@ -114,6 +115,16 @@ pub fn run(args: &vcore::Args) {
                     || s.children.as_ref().map(|c| selects(c, k)).unwrap_or(false)
             })
         }
+        if fs2.iter().any(|&k| p.decls.iter().any(|d| selects(&d.selections, k))) {
+            let o = match &results[i].1 {
+                Outcome::Artifacts(_) => "artifacts".to_string(),
+                Outcome::Diagnostics(d) => format!("diag: {}", d.first().map(|s| s.lines().next().unwrap_or("").chars().take(90).collect::<String>()).unwrap_or_default()),
+                Outcome::SetupError(_) => "setup".to_string(),
+                Outcome::Panic(p) => format!("panic: {}", p.chars().take(60).collect::<String>()),
+            };
+            let e = hist.entry(format!("SHAPE selected-by-some-declaration -> {o}")).or_insert((0, i));
+            e.0 += 1;
+        }
         if results[i].1.is_ok() && fs2.iter().any(|&k| p.decls.iter().any(|d| selects(&d.selections, k))) {
             t3 += 1;
             if t3 <= 3 {
@@ -151,6 +162,8 @@ pub fn shrink(args: &vcore::Args) {
         "client" => GenConfig::client_graph(),
         "advanced" => GenConfig::advanced(),
         "risky" => GenConfig::everything().risky(),
+        "dense" => GenConfig::advanced().dense_refs(),
+        "densecg" => GenConfig::client_graph().dense_refs(),
         _ => GenConfig::everything(),
     };
     let a2 = vcore::Args { property: "probe".into(), ..args.clone() };
